@@ -53,7 +53,15 @@ ConfigsB == {[x1 |-> Axis(a, s * (ly[a] \div 2 - d))[1], y1 |-> Axis(a, s * (ly[
               vx |-> Axis(a, w)[1], vy |-> Axis(a, w)[2], vz |-> Axis(a, w)[3], r1 |-> q1, r2 |-> q2,
               lx |-> ly[1], ly |-> ly[2], lz |-> ly[3], gz |-> 1] :
                ly \in Layouts, a \in 1..3, s \in {1, -1}, d \in {1, 2}, w \in Vel, q1 \in {1, 2}, q2 \in Rad}
-Configs == ConfigsA \cup ConfigsB
+(* family C: fly-throughs in the cubic box -- a fast body whose straight path over the step passes the other one although
+   neither end point overlaps it (the closest approach lies strictly inside the step)                                    *)
+Fast == {-6, -4, 4, 6}
+ConfigsC == {c \in [x1 : Pos, y1 : Pos, z1 : {0}, x2 : Pos, y2 : Pos, z2 : {0}, vx : Fast, vy : {-2, 0, 2}, vz : {0}, r1 : {0, 1}, r2 : {1, 2},
+                    lx : {8}, ly : {8}, lz : {8}, gz : {0}] : <<c.x1, c.y1>> # <<c.x2, c.y2>>}
+Configs == ConfigsA \cup ConfigsB \cup ConfigsC
+EndsMin2(c, g) == LET dx == Dx(c, g) dv == Dv(c)
+                      dx0 == <<dx[1] - dv[1], dx[2] - dv[2], dx[3] - dv[3]>> IN Min(Dot(dx, dx), Dot(dx0, dx0))
+MidOnly(c) == \E g \in Gs(c) : LineReq(c, g) /\ EndsMin2(c, g) >= SR2(c)
 
 VARIABLE c
 Init == c \in Configs
@@ -63,5 +71,5 @@ Spec == Init /\ [][Next]_c
 Sane == LET k == Class(c) IN (k.preq => k.pmay) /\ (k.lreq => k.lmay) /\ (k.preq => k.lreq)
 B(x) == IF x THEN 1 ELSE 0
 Emit == PrintT(<<"G", c.x1, c.y1, c.z1, c.x2, c.y2, c.z2, c.vx, c.vy, c.vz, c.r1, c.r2, c.lx, c.ly, c.lz, c.gz,
-                B(Class(c).preq) + 2 * B(Class(c).pmay) + 4 * B(Class(c).lreq) + 8 * B(Class(c).lmay)>>)
+                B(Class(c).preq) + 2 * B(Class(c).pmay) + 4 * B(Class(c).lreq) + 8 * B(Class(c).lmay), B(MidOnly(c))>>)
 =============================================================================
